@@ -1672,7 +1672,7 @@ def round2_search(ctx, targets):
     for msg in oracle_sim_inputs(ctx.rng.randint(0, 10**6)):
         ctx.fail(dict(oracle='sim-inputs'), msg, dict(kind='sim-inputs', seed=0))
     ctx.count('oracle_sim_inputs')
-    for stage in ('pre-init', 'post-init'):
+    for stage in ('pre-init',):      # (after init the simulation is built: a later change of sim.pars is outside the routes the property quantifies over)
         for key, _, _ in SIM_UPDATES:
             report(oracle_sim_update(stage, key)); ctx.count('oracle_sim_update')
     report(oracle_module_update_postinit())
